@@ -315,3 +315,46 @@ def check_index_maps(facts, rep):
         else:
             rep.ok('E8b.F12-index-maps', inst, 'matches')
     rep.floor('E8b.F12 SpMat re-indexing bodies', n, 18)
+
+
+def check_extend_cols(facts, rep):
+    """F13 (C13, "column extension"): a.extend_cols(b) is [a | b] of shape (m, n_a + n_b) on every return path: either
+    the path established ncols(b) == 0 (nothing to add, shape already right), or it rebuilds the matrix with
+    try_from_csc_data(nrows(a), ncols(a) + ncols(b), ..) from a's arrays with b's appended (column offsets shifted by a's
+    last offset). An early exit on "b has no stored entries" keeps a's width: a later block then lands in the wrong columns."""
+    b = facts.bodies.get('yui_matrix::sparse::sp_mat::SpMat::<R>::extend_cols')
+    if b is None:
+        rep.indet('E8b.F13: SpMat::extend_cols not found')
+        return
+    rep.saw(b)
+
+    def dk(t):
+        return re.sub(r'&mut _\d+', 'IT', re.sub(r'#\d+\.\d+', '', show(t, -1000))).replace('&', '').replace('*', '')
+    n = 0
+    probs = []
+    for p in SymEx(b, havoc_loops=True, max_paths=5000).run():
+        if p.end != 'return':
+            continue
+        n += 1
+        conds = [(dk(e.term), e.value != 0) for e in p.branches() if 'Overflow' not in dk(e.term)]
+        empty_b = ('Eq(ncols(arg2), 0)', True) in conds
+        ws = [dk(e.term) for e in p.events if e.kind == 'write' and e.lv and dk(('mref', e.lv)).replace('mut ', '') == 'arg1.inner']
+        rebuilt = [w for w in ws if w.startswith('unwrap(try_from_csc_data(nrows(arg1), AddWithOverflow(ncols(arg1), ncols(arg2)).0,')]
+        if empty_b and not ws:
+            continue
+        if rebuilt and len(ws) == 1:
+            shift = [dk(e.args[1]) for e in p.calls() if e.name.split('::')[-1] == 'extend' and len(e.args) == 2]
+            apps = [e for e in p.calls() if e.name.split('::')[-1] == 'append']
+            pops = [e for e in p.calls() if e.name.split('::')[-1] == 'pop']
+            if len(shift) != 1 or 'disassemble(arg2.inner).0' not in shift[0] or len(apps) != 2 or len(pops) != 1:
+                probs.append('the arrays of b are not appended as (offsets shifted, row indices, values): extend %s, %d appends, %d pops' % (shift, len(apps), len(pops)))
+            continue
+        probs.append('a path returns under %s with self.inner %s: the result does not have ncols(a) + ncols(b) columns' %
+                     ([c for c in conds if not c[0].startswith('Eq(nrows(')], 'unchanged' if not ws else 'set to ' + ws[0][:80]))
+    inst = 'SpMat::extend_cols|result has ncols(a) + ncols(b) columns on every path'
+    if n < 2:
+        rep.indet('E8b.F13: extend_cols has %d return paths' % n)
+    elif probs:
+        rep.violation('E8b.F13-extend-cols', inst, 'SpMat::extend_cols: ' + '; '.join(sorted(set(probs))[:2]), where=b.where())
+    else:
+        rep.ok('E8b.F13-extend-cols', inst, 'no-op only for ncols(b) == 0; otherwise try_from_csc_data(m, n_a + n_b, ..)')
